@@ -209,7 +209,7 @@ def packFirst (O : Oracle) (cx : Cx) (fx : Fx) : List Ty → V → Option V
 def packIdx (O : Oracle) (cx : Cx) (fx : Fx) : List Ty → V → Int → R (List V)
   | [], _, _ => .ok []
   | t :: ts, v, i => do
-      let x ← pyIndex v i
+      let x ← pyIndexO O v i
       let a ← pack O cx fx t x
       let r ← packIdx O cx fx ts v (i + 1)
       pure (a :: r)
@@ -217,7 +217,7 @@ def packIdx (O : Oracle) (cx : Cx) (fx : Fx) : List Ty → V → Int → R (List
 def packNT (O : Oracle) (cx : Cx) (fx : Fx) : List (String × Ty) → V → Int → R (List (String × V))
   | [], _, _ => .ok []
   | (n, t) :: fs, v, i => do
-      let x ← pyIndex v i
+      let x ← pyIndexO O v i
       let a ← pack O cx fx t x
       let r ← packNT O cx fx fs v (i + 1)
       pure ((n, a) :: r)
